@@ -2,6 +2,7 @@ import Zrnt.Driver.Loop
 import Zrnt.Prelude.Text
 import Zrnt.Sha256
 import Zrnt.SSZ.Merkle
+import Zrnt.SSZ.Json
 import Zrnt.Schema.Spec
 import Zrnt.Schema.Denote
 import Zrnt.Gen.SszFacts
@@ -9,8 +10,9 @@ import Zrnt.Gen.SszFacts
 
     keys K1,K2,…                      the configuration keys the harness will send, in order
     schema <Type> <cfg>               the evaluated schema as an s-expression (drives the harness generators)
+    (<hex>: plain hex, a run of equal bytes may be written `hh*N.`; `-` = empty)
     d <label> <Type> <cfg> <hex>      strict decode at the schema; `err`, or
-                                      `ok len=<byteLength> fixed=<fixedLen> htr=<hash_tree_root>`
+                                      `ok len=<byteLength> fixed=<fixedLen> htr=<hash_tree_root> json=<canonical JSON text, or #len:fnv1a64 when long>`
     z <label> <Type> <cfg> <root>     root of the type's DEFAULT value; `<root>` is what Go's zero value of the type
                                       (slice-backed vectors sized, never decoded from bytes) hashes to
     st <label> <Type> <cfg> <claimed root> <hex>
@@ -50,6 +52,30 @@ end
 
 def hexOf (bs : Bytes) : String := toHex (ByteArray.mk bs.toArray)
 
+/-- hex with run-length compression, as the harness writes it: a byte `hh`, optionally followed by `*N.` = the byte
+`N` times in all (`00*4096.`); `-` is the empty string -/
+partial def parseHexRle (s : String) : Option Bytes :=
+  if s = "-" then some [] else
+  let rec digitsOf : List Char → Nat → Nat → Option (Nat × List Char)
+    | '.' :: rest, n, k => if k = 0 then none else some (n, rest)
+    | c :: rest, n, k => if c.isDigit ∧ n < 2 ^ 28 then digitsOf rest (n * 10 + (c.toNat - 48)) (k + 1) else none
+    | [], _, _ => none
+  let rec go : List Char → Array UInt8 → Option (Array UInt8)
+    | [], acc => some acc
+    | [_], _ => none
+    | a :: b :: rest, acc =>
+      match hexDigit a, hexDigit b with
+      | some x, some y =>
+        let byte := UInt8.ofNat (x * 16 + y)
+        match rest with
+        | '*' :: r =>
+          match digitsOf r 0 0 with
+          | some (n, r') => go r' (acc ++ Array.replicate n byte)
+          | none => none
+        | _ => go rest (acc.push byte)
+      | _, _ => none
+  (go s.toList (Array.emptyWithCapacity (s.length / 2))).map Array.toList
+
 def tyOf (name cfg : String) : Option Ty :=
   match Spec.lookup (Name.ofString name), parseCfg cfg with
   | some st, some c => some (st.eval c)
@@ -60,7 +86,7 @@ def specLine (t : Ty) (bs : Bytes) : String :=
   | none => "err"
   | some v =>
     if encode t v != bs then "model-noncanonical"
-    else s!"ok len={byteLength t v} fixed={t.fixedLen} htr={hexOf (htr sha2 t v)}"
+    else s!"ok len={byteLength t v} fixed={t.fixedLen} htr={hexOf (htr sha2 t v)} json={jsonDigest (toJson t v)}"
 
 /-- Hand-written models of bespoke leaf code, printed as the `model` column (`model | spec`) where they apply:
 * bitlist types: acceptance by the model of `common.ReadBitList` + `BitlistCheck` (`goReadBitList`);
@@ -76,7 +102,7 @@ def decodeLine (name : String) (t : Ty) (bs : Bytes) : String :=
     | some T =>
       match T.hashTreeRoot with
       | .htrTree _ ht =>
-        (if bs.length = n then s!"ok len={n} fixed={n} htr={hexOf (Facts.htEval sha2 bs ht)}" else "err") ++ " | " ++ spec
+        (if bs.length = n then s!"ok len={n} fixed={n} htr={hexOf (Facts.htEval sha2 bs ht)} json={jsonDigest (toJson t (.bytes bs))}" else "err") ++ " | " ++ spec
       | _ => spec
     | none => spec
   | _ => spec
@@ -89,8 +115,8 @@ def sszLine (line : String) : String :=
     | some t => showTy t
     | none => "bad-op"
   | ["d", _, name, cfg, hex] =>
-    match tyOf name cfg, parseHex hex with
-    | some t, some b => decodeLine name t b.data.toList
+    match tyOf name cfg, parseHexRle hex with
+    | some t, some b => decodeLine name t b
     | _, _ => "bad-op"
   | ["z", _, name, cfg, _] =>
     -- the Go zero value of the type, hashed without ever having been decoded: expected root = root of the default value
@@ -98,9 +124,9 @@ def sszLine (line : String) : String :=
     | some t => s!"ok htr={hexOf (htr sha2 t (defaultVal t))}"
     | none => "bad-op"
   | ["st", _, name, cfg, claimed, hex] =>
-    match tyOf name cfg, parseHex hex with
+    match tyOf name cfg, parseHexRle hex with
     | some t, some b =>
-      match decode t b.data.toList with
+      match decode t b with
       | none => "err"
       | some v =>
         -- the oracle's answer is the expected one: the root the mutated view reported must be the root of its content
